@@ -74,7 +74,7 @@ func (rn *runner) runWriter(e *RealEnd, tc *TaskCfg, t *Task) {
 		case "msg", "badtype", "bigctl":
 			data := op.Pay.Bytes()
 			r := t.Begin("WriteMessage", i)
-			r.MsgType, r.Data, r.Note = op.MT, data, compNow(op.MT)
+			r.MsgType, r.Data, r.Note, r.PayLen = op.MT, data, compNow(op.MT), len(data)
 			err := c.WriteMessage(op.MT, data)
 			t.End(r, err)
 			open = nil
@@ -103,14 +103,14 @@ func (rn *runner) runWriter(e *RealEnd, tc *TaskCfg, t *Task) {
 				}
 			}
 			r := t.Begin("WriteControl", i)
-			r.MsgType, r.Data = op.MT, data
+			r.MsgType, r.Data, r.PayLen = op.MT, data, len(data)
 			r.N = int(op.DlMs)
 			err := c.WriteControl(op.MT, data, rn.deadline(op.DlMs))
 			t.End(r, err)
 		case "nw", "fragctl":
 			data := op.Pay.Bytes()
 			r := t.Begin("NextWriter", i)
-			r.MsgType, r.Note = op.MT, compNow(op.MT)
+			r.MsgType, r.Note, r.PayLen = op.MT, compNow(op.MT), len(data)
 			w, err := c.NextWriter(op.MT)
 			t.End(r, err)
 			open = nil
@@ -129,6 +129,7 @@ func (rn *runner) runWriter(e *RealEnd, tc *TaskCfg, t *Task) {
 				var werr error
 				var wn int
 				cr := t.Begin("Write:"+ch.How, i)
+				cr.MsgType, cr.PayLen = op.MT, len(data)
 				switch ch.How {
 				case "s":
 					wn, werr = io.WriteString(w, string(part))
@@ -143,6 +144,7 @@ func (rn *runner) runWriter(e *RealEnd, tc *TaskCfg, t *Task) {
 					wn, werr = w.Write(part)
 				}
 				cr.N = wn
+				cr.N2 = written + n // bytes handed to the writer so far, including this call
 				t.End(cr, werr)
 				if werr != nil {
 					failed = true
@@ -151,7 +153,7 @@ func (rn *runner) runWriter(e *RealEnd, tc *TaskCfg, t *Task) {
 				written += n
 			}
 			mr := t.Begin("Message", i) // summary record of the message
-			mr.MsgType, mr.Data, mr.Note = op.MT, data[:written], r.Note
+			mr.MsgType, mr.Data, mr.Note, mr.PayLen = op.MT, data[:written], r.Note, len(data)
 			switch {
 			case failed:
 				t.End(mr, errWriteFailed)
@@ -166,6 +168,7 @@ func (rn *runner) runWriter(e *RealEnd, tc *TaskCfg, t *Task) {
 			default:
 				t.Yield()
 				cr := t.Begin("Close", i)
+				cr.MsgType, cr.PayLen = op.MT, len(data)
 				err := w.Close()
 				t.End(cr, err)
 				t.End(mr, err)
@@ -365,11 +368,10 @@ func (rn *runner) runReader(e *RealEnd, tc *TaskCfg, t *Task) {
 
 // WaitFor parks the task until *v >= want.
 func (t *Task) WaitFor(v *int, want int) {
-	for {
-		if t.sim.readCounter(v) >= want {
-			return
-		}
-		t.Yield()
+	r := &parkRec{kind: opWait, task: t, waitVar: v, waitVal: want}
+	t.sim.park(r)
+	if r.abort {
+		panic(abortRun{})
 	}
 }
 
